@@ -121,7 +121,7 @@ def _run_cases(res: Result, rng: random.Random, tier: str, fails: list):
     lines, reals = [], []
     seen = set()
 
-    def case(frames: list[tuple[str, bytes]], chunks: list[bytes], label: str):
+    def case(frames: list[tuple[str, bytes]], chunks: list[bytes], label: str, model: bool = True):
         line = "FRAME " + " ".join(c.hex() for c in chunks)
         if line in seen:
             return
@@ -131,8 +131,9 @@ def _run_cases(res: Result, rng: random.Random, tier: str, fails: list):
             raise _Enough((lines, reals))          # every further spinning case would cost its full time budget
         seen.add(line)
         r = frame_real(chunks)
-        lines.append(line)
-        reals.append(r)
+        if model:
+            lines.append(line)
+            reals.append(r)
         res.cases += 1
         res.count("kind:" + label)
         if any(f[5:8] == b"\x00\x01\x01" for _, f in frames):
@@ -161,12 +162,18 @@ def _run_cases(res: Result, rng: random.Random, tier: str, fails: list):
             if resid >= 20 and int.from_bytes(tail[1:4], "big") <= resid:
                 fails.append({"what": "reader stopped with a complete frame still buffered (silent stall)",
                               "line": line[:1200], "real": r, "label": label})
-        if kinds <= {"good", "bad"}:
+        if kinds <= {"good", "bad", "odd"}:
             want = []
+            odd_ids = set()
             for k, f in frames:
+                h = gen.rfc_parse_header(f)
                 if k == "good":
-                    h = gen.rfc_parse_header(f)
                     want.append(f"{h[3]}:{h[5]}:{h[6]}:{h[1]}")
+                elif k == "odd":
+                    # framing intact, body questionable (an AVP whose own length field is 0..7, nesting a thousand levels
+                    # deep): delivered or skipped -- but the frames around it are delivered, and the reader neither spins nor dies
+                    odd_ids.add(f"{h[3]}:{h[5]}:{h[6]}:{h[1]}")
+            dl = [x for x in dl if x not in odd_ids]
             if dl != want or closed:
                 fails.append({"what": "delivered messages differ from the well-formed frames of the stream (each once, in order, "
                                       "independent of the read boundaries; undecodable frames skipped)",
@@ -250,6 +257,36 @@ def _run_cases(res: Result, rng: random.Random, tier: str, fails: list):
                     if end + d < len(stream):
                         case(fr, cuts_to_chunks(stream, [inside, end + d]), "big-" + big_kind)
                         case(fr, cuts_to_chunks(stream, [inside, end + d] + [end + d + x for x in (5, 25)]), "big-" + big_kind)
+    # 2c. intact framing, an AVP inside whose own length field says 0..7 (less than an AVP header), at the front, in the
+    #     middle, at the end of the body; a V-flagged AVP of length 8 (no room for its vendor id)
+    oh = gen.rfc_wire(264, 0, 0x40, b"peer.example.net")
+    orr = gen.rfc_wire(296, 0, 0x40, b"example.net")
+    odd_bodies = []
+    for ln in (0, 1, 4, 7):
+        stub = (263).to_bytes(4, "big") + bytes([0x40]) + ln.to_bytes(3, "big")
+        odd_bodies += [stub + oh + orr, oh + stub + orr, oh + orr + stub]
+    odd_bodies.append(oh + (263).to_bytes(4, "big") + bytes([0xc0]) + (8).to_bytes(3, "big") + orr)
+    for i, body in enumerate(odd_bodies):
+        if tier == "quick" and i % 3 != rng.randrange(3) and i != len(odd_bodies) - 1 and i > 2:
+            continue
+        for code in (999, 272):
+            odd = gen.rfc_header(1, 20 + len(body), 0x80, code, 4, 9100 + i, 9200 + i) + body
+            fr = [("good", rng.choice(tiny)), ("odd", odd), ("good", rng.choice(tiny))]
+            stream = b"".join(f for _, f in fr)
+            case(fr, [stream], "odd-avp-length")
+            case(fr, cuts_to_chunks(stream, [len(fr[0][1]) + 30]), "odd-avp-length")
+            case(fr, [bytes([x]) for x in stream], "odd-avp-length")
+    # 2d. Grouped AVPs nested a thousand levels deep in a command without typed implementation (an ~8 KiB frame the decoder
+    #     walks recursively): whatever the decoder makes of it, the frames around it are delivered (real code only)
+    for depth in (990, 1015):
+        inner = b""
+        for _ in range(depth):
+            inner = gen.rfc_wire(260, 0, 0x40, inner)
+        deep = gen.rfc_header(1, 20 + len(inner), 0x80, 999, 0, 9301, 9302) + inner
+        fr = [("good", rng.choice(tiny)), ("odd", deep), ("good", rng.choice(tiny)), ("good", rng.choice(tiny))]
+        stream = b"".join(f for _, f in fr)
+        case(fr, [stream], "odd-deep", model=False)
+        case(fr, [stream[i:i + 2048] for i in range(0, len(stream), 2048)], "odd-deep", model=False)
     # 3. corrupted header length at every position
     for kind in ("zero", "tiny", "shorter", "longer", "huge"):
         for _ in range(3 if tier == "quick" else 20):
